@@ -15,7 +15,7 @@ use markup5ever::{LocalName, Namespace, QualName, TokenizerResult};
 use serde_json::{json, Value};
 use tendril::StrTendril;
 
-use crate::model::{Id, ModelSink, SinkPolicy, H};
+use crate::model::{Dom, Id, Kind, ModelSink, SinkPolicy, H};
 use crate::probe::Probe;
 use crate::rng::{fnv1a, mix};
 use crate::schedule::{make_chunks, Schedule};
@@ -560,6 +560,70 @@ pub struct RunObs {
     pub forwarded_line_mismatch: Option<String>,
     pub digest: u64,
     pub is_driver: bool,
+    /// RcDom pipeline only: the finished RcDom tree, copied into the model's arena
+    pub rc_tree: Option<Dom>,
+}
+
+/// Copy an RcDom tree into the model arena (iteratively; parent links are taken from RcDom's own
+/// weak parent pointers, so a wrong link shows as a wrong link).
+pub fn dom_from_rcdom(doc: &markup5ever_rcdom::Handle) -> Dom {
+    use markup5ever_rcdom::NodeData;
+    use std::collections::BTreeMap;
+    let mut dom = Dom { nodes: vec![], quirks: None };
+    let mut ids: BTreeMap<usize, Id> = BTreeMap::new();
+    let key = |h: &markup5ever_rcdom::Handle| Rc::as_ptr(h) as usize;
+    // (rc node, is template-contents fragment of model id)
+    let mut stack: Vec<(markup5ever_rcdom::Handle, Option<Id>)> = vec![(doc.clone(), None)];
+    let mut order: Vec<(markup5ever_rcdom::Handle, Id)> = vec![];
+    while let Some((h, host)) = stack.pop() {
+        let kind = match &h.data {
+            NodeData::Document => {
+                if host.is_some() || !dom.nodes.is_empty() {
+                    Kind::Fragment
+                } else {
+                    Kind::Document
+                }
+            },
+            NodeData::Doctype { name, public_id, system_id } => Kind::Doctype { name: name.to_string(), public_id: public_id.to_string(), system_id: system_id.to_string() },
+            NodeData::Text { contents } => Kind::Text(contents.borrow().to_string()),
+            NodeData::Comment { contents } => Kind::Comment(contents.to_string()),
+            NodeData::ProcessingInstruction { target, contents } => Kind::Pi { target: target.to_string(), data: contents.to_string() },
+            NodeData::Element { name, attrs, template_contents, mathml_annotation_xml_integration_point } => Kind::Element {
+                prefix: name.prefix.as_ref().map(|p| p.to_string()),
+                ns: name.ns.clone(),
+                local: name.local.clone(),
+                attrs: attrs.borrow().iter().map(crate::model::attr_to_m).collect(),
+                template: template_contents.borrow().is_some(),
+                mathml_ip: *mathml_annotation_xml_integration_point,
+                dup_attrs: false,
+            },
+        };
+        let id = dom.new_node(kind);
+        ids.insert(key(&h), id);
+        if let Some(t) = host {
+            dom.nm(t).template_contents = Some(id);
+            dom.nm(id).host = Some(t);
+        }
+        if let NodeData::Element { template_contents, .. } = &h.data {
+            if let Some(tc) = template_contents.borrow().as_ref() {
+                stack.push((tc.clone(), Some(id)));
+            }
+        }
+        for c in h.children.borrow().iter().rev() {
+            stack.push((c.clone(), None));
+        }
+        order.push((h, id));
+    }
+    for (h, id) in &order {
+        let kids: Vec<Id> = h.children.borrow().iter().map(|c| ids[&key(c)]).collect();
+        dom.nm(*id).children = kids;
+        let parent = h.parent.take();
+        let up = parent.as_ref().and_then(|w| w.upgrade());
+        h.parent.set(parent);
+        // a parent outside the tree (or none) is recorded as "no parent"
+        dom.nm(*id).parent = up.and_then(|p| ids.get(&key(&p)).cloned());
+    }
+    dom
 }
 
 pub struct CollectTracer {
@@ -781,6 +845,11 @@ pub fn drive<D: Driven>(
     (pauses, feed_results, queue_nonempty, stats)
 }
 
+thread_local! {
+    /// set by checks that want to look at the RcDom tree of an RcDom-pipeline run
+    pub static KEEP_RC_TREE: Cell<bool> = const { Cell::new(false) };
+}
+
 pub fn run_html(case: &HtmlCase, record_calls: bool, emulate_never_mirror: bool) -> RunObs {
     let probe = Rc::new(Probe::new());
     match &case.pipeline {
@@ -835,10 +904,12 @@ pub fn run_html(case: &HtmlCase, record_calls: bool, emulate_never_mirror: bool)
             let _ = html5ever::serialize::serialize(&mut out, &sh, Default::default());
             let dg = fnv1a(&out);
             drop(sh);
+            let rc_tree = if KEEP_RC_TREE.with(|k| k.get()) { Some(dom_from_rcdom(&dom.document)) } else { None };
             drop(dom);
             let mut obs = finish_obs(vec![], vec![], vec![], None, 1, 0, 1, &probe, stats, None, None);
             obs.digest = dg;
             obs.is_driver = true;
+            obs.rc_tree = rc_tree;
             obs
         },
         Pipeline::Tree { context, ctx_scripting, attach_ok, allow_shadow, driver, with_form } => {
@@ -966,6 +1037,7 @@ fn finish_obs(
         forwarded_line_mismatch: flm,
         digest: dg,
         is_driver: false,
+        rc_tree: None,
     }
 }
 
